@@ -444,20 +444,35 @@ def _part_a(case, ev):
                 run(f"edge #{ei} producer return unannotated", a3, ei, strict=True)
             elif flaw == "strict_second_producer_incompatible":
                 # two exclusive branches produce p; the one listed SECOND has the wrong type
-                for wrong_first in (False, True):
+                for wrong_first, also_other in ((False, False), (True, False), (False, True), (True, True)):
                     ta = {"k": "func", "name": "br_a", "params": [], "defaults": {}, "outs": [p], "ann": {"return": "str" if wrong_first else "int"}}
                     tb = {"k": "func", "name": "br_b", "params": [], "defaults": {}, "outs": [p], "ann": {"return": "int" if wrong_first else "str"}}
                     gate = {"k": "ifelse", "name": "br_gate", "params": [], "defaults": {}, "t": "br_a", "f": "br_b", "table": [True]}
                     rest = [dict(n) for j, n in enumerate(ann) if j != pi]
                     if any(q in prodmap and prodmap[q] == pi for n in rest for q in n["params"] if q != p):
                         continue
-                    flawed = rest[:ci] + [gate, ta, tb] + rest[ci:]
-                    ok_nodes = rest[:ci] + [gate, {**ta, "ann": {"return": "int"}}, {**tb, "ann": {"return": "int"}}] + rest[ci:]
+                    tb_ok = {**tb, "ann": {"return": "int"}}
+                    if also_other:
+                        # the second-listed producer ALSO feeds the same consumer another, correctly typed value: the pair of nodes
+                        # is already linked, the edge for the shared name must be type-checked all the same
+                        wrong = tb if not wrong_first else ta
+                        other = "p_extra"
+                        wt = wrong["ann"]["return"]
+                        wrong.update({"outs": [p, other], "ann": {"return": tuple[(str if wt == "str" else int), int]}})
+                        cname = ann[ci]["name"]
+                        rest = [({**n, "params": [q for q in n["params"] if q not in n.get("defaults", {})] + [other] + [q for q in n["params"] if q in n.get("defaults", {})],
+                                  "ann": {**n["ann"], other: "int"}} if n["name"] == cname else n) for n in rest]
+                        if wrong is tb:
+                            tb_ok = {**tb, "ann": {"return": tuple[int, int]}}
+                    ci_r = next(j for j, n in enumerate(rest) if n["name"] == ann[ci]["name"])
+                    flawed = rest[:ci_r] + [gate, ta, tb] + rest[ci_r:]
+                    ta_ok = {**ta, "ann": {"return": tuple[int, int] if len(ta["outs"]) == 2 else "int"}}
+                    ok_nodes = rest[:ci_r] + [gate, ta_ok, tb_ok] + rest[ci_r:]
                     try:
                         make_graph(Ctx(compact=True), {"nodes": ok_nodes, "strict": True}, "sync")
                     except Exception:  # noqa: BLE001
                         continue
-                    run(f"edge #{ei}: second-listed producer of {p!r} returns str (wrong one listed {'first' if wrong_first else 'second'})", flawed, ei + 1, strict=True)
+                    run(f"edge #{ei}: a producer of the shared name {p!r} returns str (wrong one listed {'first' if wrong_first else 'second'}{', it also feeds the consumer a second value' if also_other else ''})", flawed, ei + 1, strict=True)
     ev.count("flaw_sites", sites)
     if sites == 0:
         ev.discard("no_site_for:" + flaw)
